@@ -197,12 +197,17 @@ type step struct {
 }
 
 type scenario struct {
-	Stateful    [nTypes]bool `json:"stateful"` // per type: every emitter of the type is created with eventbus.Stateful
+	// Stateful, per type: some emitter of the type is created with eventbus.Stateful (the type
+	// may get a retained event at some point of the history). Which emitters ask for it is
+	// EmStateful (one entry per emitter; omitted = every emitter of a type follows Stateful):
+	// emitters of one type may disagree.
+	Stateful    [nTypes]bool `json:"stateful"`
+	EmStateful  []bool       `json:"em_stateful,omitempty"`
 	Workers     int          `json:"workers"`  // emit goroutines (at most one unfinished burst each)
 	Ems         []int        `json:"emitters"` // type of each emitter
 	Subs        []subSpec    `json:"subs"`
 	Bad         []badSpec    `json:"bad,omitempty"` // calls the bus has to refuse (action kind "bad")
-	PreEms      int          `json:"pre_emitters"` // created sequentially before step 0
+	PreEms      int          `json:"pre_emitters"`  // created sequentially before step 0
 	PreSubs     int          `json:"pre_subs"`
 	Steps       []step       `json:"steps"`
 	FinalBursts []action     `json:"final_bursts,omitempty"` // emits racing with the final close of everything
@@ -241,8 +246,11 @@ func (b *burst) remaining() int { return len(b.recs) - int(b.done.Load()) }
 
 type emState struct {
 	id, typ     int
+	stateful    bool // created with eventbus.Stateful
+	midHistory  bool // created by a newEm action (not before step 0)
 	em          event.Emitter
-	created     bool // creation accepted (model)
+	created     bool  // creation accepted (model)
+	createdCall int64 // stamps around bus.Emitter
 	createdRet  int64
 	closeIssued bool
 	closeCall   int64
@@ -328,14 +336,20 @@ type harness struct {
 	all     []*emitRec
 	bads    []*badRec
 	anyEmit [nTypes]bool
-	stepNo  int
-	pending []*running
+	// mayReplay, per type: an emitter of the scenario declares the type stateful, so a
+	// Subscribe may have to replay a retained event (upper bound used by the hazard filter:
+	// it does not matter whether / when that emitter is created)
+	mayReplay [nTypes]bool
+	stepNo    int
+	pending   []*running
 
-	failure  string
-	stuck    bool
-	labels   map[string]bool
-	trace    []string
-	excluded bool // an action was dropped by the known-finding exclusion
+	failure string
+	stuck   bool
+	labels  map[string]bool
+	// a stateful replay was demanded and checked for a type whose emitters disagree on Stateful
+	mixedReplayChecked bool
+	trace              []string
+	excluded           bool // an action was dropped by the known-finding exclusion
 }
 
 type result struct {
@@ -559,7 +573,7 @@ func (h *harness) analyse(acts []action) (string, map[int]bool) {
 					continue
 				}
 				traffic += load[t]
-				if h.sc.Stateful[t] && (h.anyEmit[t] || load[t] > 0) && (isNew || !s.replayDone) {
+				if h.mayReplay[t] && (h.anyEmit[t] || load[t] > 0) && (isNew || !s.replayDone) {
 					hs.replay[t] = true
 					rp++
 				}
@@ -627,7 +641,7 @@ func (h *harness) analyse(acts []action) (string, map[int]bool) {
 				if i == len(s.spec.Types)-1 {
 					break // after the last registration Subscribe needs no lock any more
 				}
-				if h.sc.Stateful[t] && (h.anyEmit[t] || load[t] > 0) {
+				if h.mayReplay[t] && (h.anyEmit[t] || load[t] > 0) {
 					senders++
 				}
 				senders += load[t]
@@ -698,9 +712,10 @@ func (h *harness) plan(cands []action) []action {
 
 func (h *harness) doNewEm(e *emState) {
 	var opts []event.EmitterOpt
-	if h.sc.Stateful[e.typ] {
+	if e.stateful {
 		opts = append(opts, eventbus.Stateful)
 	}
+	e.createdCall = h.now()
 	em, err := h.bus.Emitter(typePtr(e.typ), opts...)
 	if err != nil {
 		panic(fmt.Sprintf("harness: Emitter: %v", err))
@@ -1019,6 +1034,7 @@ func (h *harness) launch(acc []action) {
 		case "newEm":
 			e := h.ems[a.E]
 			e.created = true
+			e.midHistory = true
 			body = func() { h.doNewEm(e) }
 		}
 		if run != nil {
@@ -1049,7 +1065,7 @@ func (h *harness) launch(acc []action) {
 		s := h.subs[a.S]
 		possible := false
 		for t := 0; t < nTypes; t++ {
-			if s.types[t] && h.sc.Stateful[t] && h.anyEmit[t] {
+			if s.types[t] && h.mayReplay[t] && h.anyEmit[t] {
 				possible = true
 			}
 		}
@@ -1095,8 +1111,17 @@ func (h *harness) quiesce() {
 func newHarness(sc *scenario) *harness {
 	js, _ := json.Marshal(sc)
 	h := &harness{sc: sc, scJSON: string(js), recs: map[evKey]*emitRec{}, labels: map[string]bool{}}
+	h.mayReplay = sc.Stateful
+	if len(sc.EmStateful) == len(sc.Ems) {
+		h.mayReplay = [nTypes]bool{}
+	}
 	for i, t := range sc.Ems {
-		h.ems = append(h.ems, &emState{id: i, typ: t})
+		e := &emState{id: i, typ: t, stateful: sc.Stateful[t]}
+		if len(sc.EmStateful) == len(sc.Ems) {
+			e.stateful = sc.EmStateful[i]
+			h.mayReplay[t] = h.mayReplay[t] || e.stateful
+		}
+		h.ems = append(h.ems, e)
 	}
 	for i, sp := range sc.Subs {
 		s := &subState{id: i, spec: sp, wild: sp.Kind == "wild"}
